@@ -256,7 +256,7 @@ def runCmd (w : World) (tok : Array String) : World × List String :=
     | "owner" => ({ w with g := { w.g with ownerSet := true, owner := (t 2).toNat! } }, [])
     | "group" => ({ w with g := { w.g with groupSet := true, group := (t 2).toNat! } }, [])
     | "nosymlink" => ({ w with g := { w.g with allowSymlinks := (t 2).toNat! == 0 } }, [])
-    | "reset" => ({ w with g := { w.g with ownerSet := false, groupSet := false, allowSymlinks := true } }, [])
+    | "reset" => ({ w with g := resetSecurity w.g }, [])
     | "confdirs" => ({ w with g := { w.g with confDirs := (tok.toList.drop 2).map decD } }, ["confdirs E0"])
     | _ => (w, ["?"])
   | "LOGOPEN" => ({ w with logOpen := (t 1).toNat! != 0 }, [])
